@@ -8,7 +8,11 @@
 (* (space, e):  ("log", e) = e  matches i = e;  ("linear", e) = 10^e matches p = e.*)
 (* set_mode logs the mode in lower case (m) and the positions the caller wrote in  *)
 (* upper case (cs); a string that is neither mode is logged as m with cs = <<>>.   *)
-(* update_model logs the exponents of the vector, of whatever length.              *)
+(* update_model logs the exponents of the vector, of whatever length; update_same  *)
+(* is update_model with the array object of the previous update_model call.        *)
+(* post.arg is that array re-read after every call (two-way reading per entry): it *)
+(* must still hold what the caller wrote.  A boundary that is zero / negative is   *)
+(* logged (x) and read (p) as its code (Optimizer.tla: Zero, Neg(e)).              *)
 (* Stateful traces: at the first mismatch <<"BAD", ..>> is printed and the rest of *)
 (* that tid is skipped.                                                            *)
 EXTENDS MC_Optimizer, IOUtils
@@ -33,8 +37,11 @@ Inconsistent(o, post) == IF o.nsp # o.psp THEN "fit_names"
                               THEN "fit_values" ELSE "ok"
 \* first clause on which the logged projection differs from the specification's state ("ok" if none)
 \* full: after compile_params / update_model / write_back the whole set-up is compared
-Why(post, cmp, cder, val, e, full) ==
+ArgWhy(post, ar) == IF Len(post.arg) # Len(ar) THEN FALSE
+                     ELSE \A i \in 1..Len(ar) : NumIs(post.arg[i], ar[i].sp0, ar[i].e)
+Why(post, cmp, cder, val, e, full, ar) ==
     IF post.err # e THEN (IF e THEN "unknown_is_error" ELSE "known_is_accepted")
+    ELSE IF ~ArgWhy(post, ar) THEN "argument_untouched"
     ELSE IF ~post.ok THEN "views_readable"
     ELSE IF ~full THEN
          IF \E i \in 1..Len(post.fit) : Inconsistent(post.fit[i], post) # "ok"
@@ -52,7 +59,7 @@ Why(post, cmp, cder, val, e, full) ==
 Reset == /\ setting' = InitSetting /\ derivedOn' = InitDerived
          /\ userPrior' = [p \in PSet |-> None] /\ priorTab' = [p \in PSet |-> None]
          /\ compiled' = <<>> /\ compiledDer' = <<>>
-         /\ value' = InitValue /\ err' = FALSE /\ hist' = <<>>
+         /\ value' = InitValue /\ err' = FALSE /\ hist' = <<>> /\ arg' = <<>>
 
 Apply(e) ==
     CASE e.op = "enable_fit"          -> IF e.p \in PSet THEN EnableFit(e.p) ELSE Unknown(e.op, e.p)
@@ -68,6 +75,7 @@ Apply(e) ==
       [] e.op = "disable_derived"     -> IF e.p \in DSet THEN DisableDerived(e.p) ELSE Unknown(e.op, e.p)
       [] e.op = "compile_params"      -> Compile
       [] e.op = "update_model"        -> IF Len(e.x) = Len(compiled) THEN UpdateModel(e.x) ELSE UpdateWrong(e.x)
+      [] e.op = "update_same"         -> UpdateSame
       [] e.op = "write_back"          -> WriteBack
 
 TInit == Init /\ l = 1 /\ skip = FALSE
@@ -78,7 +86,7 @@ Step == /\ l <= Len(TraceLog)
              ELSE IF skip THEN UNCHANGED <<vars, skip>>
              ELSE /\ Apply(e)
                   /\ LET w == Why(e.post, compiled', compiledDer', value', err',
-                                   e.op \in {"compile_params", "update_model", "write_back"}) IN
+                                   e.op \in {"compile_params", "update_model", "update_same", "write_back"}, arg') IN
                        IF w = "ok" THEN skip' = FALSE
                        ELSE /\ PrintT(<<"BAD", ToJson([l |-> l, tid |-> e.tid, step |-> e.step, why |-> w, op |-> e.op])>>)
                             /\ skip' = TRUE
